@@ -3,7 +3,7 @@ from checks import relational
 
 TECHNIQUE = "two symbolic executions of the real Model.build/process (and of set_initialization / ParameterScenario.get_parset / deepcopy / pickle) on z3-real proxies compared output by output: z3 term identity where both runs build the same term, SMT otherwise; counterexamples replayed on the unpatched code"
 EXPLANATION = "Run A from an arbitrary symbolic state (M1, M4 junction, M7 timed with flush, M8 duration group with junction, M12 with programs active before/after the restart year); the real ParameterSet.set_initialization / Initialization.from_result / apply store the state at index j; run B starts at t_j with the settings' start moved; chain: restart of a restart. Obligation: B's initial state equals A's state at j (each row of timed compartments) and every stock, flow, parameter and sum-characteristic of B at index i equals A's at j+i (lockstep). The calibration-spreadsheet route (to_excel/from_excel) is file I/O through pandas/openpyxl and is not decided by this technique; derivative parameters are excluded by the property. Bounds: T <= 7 time points, dt = 0.25, one population (two with a transfer in thorough), values in unit ranges; floats as reals."
-GROUP_TIMEOUT = {"quick": 900, "thorough": 3000}
+GROUP_TIMEOUT = {"quick": 1800, "thorough": 3600}
 
 
 def groups(tier):
